@@ -66,11 +66,17 @@ fn sample_step(cap_s: u64) {
             assert!(srtt == r, "C16: after the first sample SRTT is that sample (between smallest and largest seen)");
             assert!(rto == rto_formula(srtt, rttvar), "C16: RTO == clamp(SRTT + max(4*RTTVAR, granularity)) after the first sample");
         }
-        (RttState::Subsequent { srtt: s0, .. }, RttState::Subsequent { rto, srtt, rttvar }) => {
+        (RttState::Subsequent { srtt: s0, rttvar: v0, .. }, RttState::Subsequent { rto, srtt, rttvar }) => {
             kani::cover!(rto > MIN_RTO && rto < MAX_RTO && r != s0, "later sample gives an unclamped RTO");
             let lo = core::cmp::min(s0, r);
             let hi = core::cmp::max(s0, r);
             assert!(srtt >= lo && srtt <= hi, "C16: SRTT stays between the previous SRTT and the sample");
+            // "its variance": whatever the smoothing gain, the new RTTVAR is a mix of the old RTTVAR and the new
+            // deviation |SRTT - R| (2 ns slack for the two integer divisions)
+            let dev = hi - lo;
+            let vlo = core::cmp::min(v0, dev);
+            let vhi = core::cmp::max(v0, dev);
+            assert!(rttvar + Duration::from_nanos(2) >= vlo && rttvar <= vhi, "C16: RTTVAR moves between its previous value and the new deviation |SRTT - sample|");
             assert!(rto == rto_formula(srtt, rttvar), "C16: RTO == clamp(SRTT + max(4*RTTVAR, granularity)) after a sample");
         }
         _ => assert!(false, "C16: a sample always leaves the estimator in the measured state"),
@@ -83,7 +89,7 @@ fn sample_step(cap_s: u64) {
 // @verif id=C16.1 props=C16,C06,C10 tier=quick
 // @functions RttEstimator::sample, rtte::calc_rto, rtte::clamp, rtte::duration_abs_diff, RttEstimator::retransmission_timeout
 // @bounds one step from EVERY estimator state with 200ms <= rto <= 60s and srtt, rttvar <= 2^15 s; every sample 0 ns ..= 2^15 s (nanosecond granularity)
-// @asserts invariant preserved (200ms <= RTO <= 60s); RTO == clamp(SRTT + max(4*RTTVAR, 10ms)) on the post-state; SRTT' between previous SRTT and the sample (by induction: between the smallest and largest sample seen); first sample: SRTT = sample; no panic/overflow
+// @asserts invariant preserved (200ms <= RTO <= 60s); RTO == clamp(SRTT + max(4*RTTVAR, 10ms)) on the post-state; SRTT' between previous SRTT and the sample (by induction: between the smallest and largest sample seen); RTTVAR' between the previous RTTVAR and the new deviation |SRTT - sample| (gain-independent form of 'its variance'); first sample: SRTT = sample; no panic/overflow
 // @assumes state satisfies inv_rtte (200ms<=rto<=60s; srtt,rttvar<=CAP); sample <= CAP
 // @outside samples or smoothed values above 2^15 s (thorough: 2^20 s); the exact smoothing gains (alpha, beta) are not part of the property and are not asserted
 #[kani::proof]
